@@ -76,9 +76,9 @@ Proof. exact no_lookup_unless_plain. Qed.
    trip was made for, hence with that target's Host header and TLS server name *)
 (* every TCP connection behind the attempts of a round trip, and the connection of the
    .well-known request of its resolution, is to an address the allow / deny lists permit *)
-Theorem round_trip_connections_policed : forall wks dead allow deny ip_of name resolved cache k r c,
-  round_trip wks (blocked_by dead allow deny ip_of) name resolved cache k = Some r ->
-  In c (attempt_connections ip_of (rt_attempts r)) ->
+Theorem round_trip_connections_policed : forall wks dead allow deny ip_of name res n cache k c,
+  In c (attempt_connections ip_of
+          (rt_attempts (round_trip wks (blocked_by dead allow deny ip_of) name res n cache k))) ->
   may_connect allow deny (net_of c) c.
 Proof. exact attempt_connections_allowed. Qed.
 
@@ -86,27 +86,34 @@ Theorem well_known_connection_policed : forall allow deny ip_of name c,
   well_known_connection allow deny ip_of name = Some c -> may_connect allow deny (net_of c) c.
 Proof. exact well_known_connection_allowed. Qed.
 
-Theorem round_trip_attempts_follow_spec : forall wk srv dead name k r t o l,
-  srv_sane srv ->
-  round_trip true dead name (resolve wk srv name) None k = Some r ->
-  In (t, o) (rt_attempts r) -> resolves wk srv name (Targets l) -> In t l.
+(* every attempt of a round trip that starts without a cache entry goes to a target the
+   specification prescribes for the server name the round trip was made for, under the answers
+   the lookups give at the time: the first pass under those of its resolution, the retry pass -
+   after every target failed the name is resolved AGAIN (F95) - under those of the fresh one *)
+Theorem round_trip_attempts_follow_spec : forall wk1 srv1 wk2 srv2 blocked name k t o,
+  srv_sane srv1 -> srv_sane srv2 ->
+  In (t, o) (rt_attempts (round_trip true blocked name
+               (fun i => match i with O => resolve wk1 srv1 name | _ => resolve wk2 srv2 name end)
+               0 None k)) ->
+  (exists l, resolves wk1 srv1 name (Targets l) /\ In t l) \/
+  (exists l, resolves wk2 srv2 name (Targets l) /\ In t l).
 Proof. exact attempts_follow_spec. Qed.
 
-(* with a resolution cache: attempts use cached or freshly resolved targets only, and the cache
-   only ever holds what a resolution of that name produced *)
-Theorem round_trip_attempts_usable : forall wks dead name resolved cache k r t o,
-  round_trip wks dead name resolved cache k = Some r ->
-  In (t, o) (rt_attempts r) -> usable wks name resolved cache t.
+(* with a resolution cache: attempts use cached targets or targets of a resolution made in this
+   round trip, and the cache only ever holds what such a resolution produced *)
+Theorem round_trip_attempts_usable : forall wks blocked name res n cache k t o,
+  In (t, o) (rt_attempts (round_trip wks blocked name res n cache k)) ->
+  usable wks name res n cache t.
 Proof. exact attempts_are_usable. Qed.
 
-Theorem round_trip_cache_holds_resolution : forall wks dead name resolved cache k r l,
-  round_trip wks dead name resolved cache k = Some r -> rt_cache r = Some l ->
-  (wks = true /\ (cache = Some l \/ resolved = Targets l)) \/ (wks = false /\ cache = Some l).
+Theorem round_trip_cache_holds_resolution : forall wks blocked name res n cache k l,
+  rt_cache (round_trip wks blocked name res n cache k) = Some l ->
+  cache = Some l \/ (wks = true /\ (res n = Targets l \/ res (S n) = Targets l)).
 Proof. exact cache_holds_resolution. Qed.
 
-Theorem round_trip_success_has_completed_attempt : forall wks dead name resolved cache k r,
-  round_trip wks dead name resolved cache k = Some r -> rt_ok r = true ->
-  exists t, In (t, AOk) (rt_attempts r).
+Theorem round_trip_success_has_completed_attempt : forall wks blocked name res n cache k,
+  rt_ok (round_trip wks blocked name res n cache k) = true ->
+  exists t, In (t, AOk) (rt_attempts (round_trip wks blocked name res n cache k)).
 Proof. exact success_has_ok_attempt. Qed.
 
 (* ---------------- well-known ---------------- *)
